@@ -4,7 +4,8 @@
  *     gost3411_2012_transform_n_generic / _n  over VF_T_NBLK blocks  ==
  *     per block:  h = g_N(h, m);  N = N + bits;  Sigma = Sigma + m      (RFC 6986 7, 8)
  * for EVERY function LPS.  The two 512-bit adders run as they are (their own obligations:
- * gost.add512*, gost.addmod512).  -DVF_ALIGN=r selects the source alignment (r != 0: the
+ * gost.add512*, gost.addmod512).  -DVF_T1 -DVF_T_FN=gost3411_2012_transform_1[_generic]: the
+ * same for the g_0 step (gost3411_2012_SLP replaced as well).  -DVF_ALIGN=r selects the source alignment (r != 0: the
  * block is first copied into ctx->buffer). */
 #define VF_GOST_T 1
 #define VF_GOST_LPS_ORACLE 1
@@ -38,11 +39,18 @@ void harness(void) {
 			vf_lps_out[k][i] = nondet_uint64_t();
 	vf_lps_n = 0;
 	vf_lps_j = 0;
+#ifdef VF_T1
+	/* g_0 (finalisation steps): h = g_0(h, m), N and Sigma untouched; also gost3411_2012_SLP replaced */
+	uint64_t zero[8] = { 0, 0, 0, 0, 0, 0, 0, 0 };
+	VF_T_FN(&ctx, (const uint64_t *)(const void *)(blk.b + VF_ALIGN));
+	vf_gost_g(eh, zero, blk.b + VF_ALIGN);
+#else
 	/* the library first (records the LPS arguments) ... */
 	VF_T_FN(&ctx, bits, blk.b + VF_ALIGN, blk.b + VF_ALIGN + VF_T_NBLK * 64);
 	/* ... then the specification, in lock step */
 	for (unsigned b = 0; b < VF_T_NBLK; b++)
 		vf_gost_stage(eh, en, es, blk.b + VF_ALIGN + 64 * b, bits);
+#endif
 	VF_ASSERT(vf_lps_j == vf_lps_n, "the specification applies LPS as often as the library");
 	VF_ASSERT(VF_GOST_EQ8(eh, ctx.hash), "h == g_N(h, m)");
 	VF_ASSERT(VF_GOST_EQ8(en, ctx.counter), "N == N + bits");
